@@ -73,7 +73,12 @@ func (r *rigT) parse(d []byte) out {
 	msg := r.buf[:n]
 	_, _, b0 := r.dp.VerifCounters()
 	r.rec.Maps, r.rec.Events = nil, nil
-	r.in <- []*statsd.Datagram{{IP: ip, Msg: msg, Timestamp: ts, DoneFunc: func() {}}}
+	// DoneFunc tells the receiver that the buffer is free: it is overwritten at once, as the next datagram read into it would
+	r.in <- []*statsd.Datagram{{IP: ip, Msg: msg, Timestamp: ts, DoneFunc: func() {
+		for i := range msg {
+			msg[i] = 0xFE
+		}
+	}}}
 	r.in <- nil
 	_, _, b1 := r.dp.VerifCounters()
 	o := out{bad: b1 - b0}
@@ -169,6 +174,25 @@ func checkDatagram(r *rigT, d []byte) {
 			wantEv = append(wantEv, alone.events...)
 		}
 	}
+	// a datagram of one accepted metric line: the parser hands on the line's tags in the order given (without the
+	// first host: tag when ignore-host took it as the source) - read before the map merge, which sorts them
+	if ls := splitLines(d); len(ls) == 1 {
+		if v, m := lineref.ParseMetric(ls[0], r.ns); v == lineref.Accept {
+			wantTags := append([]string{}, m.Tags...)
+			if r.ignoreHost {
+				for i, t := range wantTags {
+					if strings.HasPrefix(t, "host:") {
+						wantTags = append(wantTags[:i], wantTags[i+1:]...)
+						break
+					}
+				}
+			}
+			gotTags, _ := r.dp.VerifLineTags(ip, append([]byte{}, d...))
+			if len(gotTags) != 1 || fmt.Sprint(gotTags[0]) != fmt.Sprint(wantTags) {
+				bad("tag-order", fmt.Sprintf("the parser's metric carries tags %v, want %v (in this order)", gotTags, wantTags))
+			}
+		}
+	}
 	got, err := mapref.FromSnapshot(whole.snap)
 	if err != nil {
 		bad("dup-series", err.Error())
@@ -223,7 +247,7 @@ func shape(d []byte) string {
 
 var menu = []string{
 	"a:1|c", "a:2|c|@0.5", "g:1|g", "g:2|g", "g:3|g|#x", "t:5|ms", "t:7|h|@0.25", "s:m1|s", "s:m2|s",
-	"a b/c$d:1|c", "bad line", "", "_e{2,3}:ti|txt|#et", "a:4|c|#host:hh,x", "a:1|c|#x,host:h2,host:h3", "g:9|g|#host:hh",
+	"a b/c$d:1|c", "bad line", "", "_e{2,3}:ti|txt|#et", "a:4|c|#host:hh,x", "a:1|c|#x,host:h2,host:h3", "g:9|g|#host:hh", "t:2|ms|#w,host:h4,x,y,z",
 	// lines rejected only after their tags were read, and an event without tags of its own
 	"a:zz|c|#t1,t2", "a:1|c|#t3|@0", "_e{1,1}:x|y", "_e{1,1}:x|y|#t4|p:bogus",
 	// the same names under another tag set, sampled (first datapoint of a new series of an existing name)
